@@ -134,6 +134,14 @@ func (c *Client) handleAcceptVersion(msg protocol.Message) error {
 		)
 	}
 	msgAcceptVersion := msg.(*MsgAcceptVersion)
+	// The peer may only accept a version that we proposed
+	proposedVersionData, ok := c.config.ProtocolVersionMap[msgAcceptVersion.Version]
+	if !ok || proposedVersionData == nil {
+		return fmt.Errorf(
+			"protocol version accepted by peer was not proposed: %d",
+			msgAcceptVersion.Version,
+		)
+	}
 	protoVersion := protocol.GetProtocolVersion(msgAcceptVersion.Version)
 	if protoVersion.NewVersionDataFromCborFunc == nil {
 		return fmt.Errorf(
@@ -146,6 +154,14 @@ func (c *Client) handleAcceptVersion(msg protocol.Message) error {
 	)
 	if err != nil {
 		return err
+	}
+	// The accepted version data must carry the network magic that we proposed
+	if versionData == nil ||
+		versionData.NetworkMagic() != proposedVersionData.NetworkMagic() {
+		return fmt.Errorf(
+			"network magic mismatch in version data accepted by peer for version %d",
+			msgAcceptVersion.Version,
+		)
 	}
 	return c.config.FinishedFunc(
 		c.callbackContext,
